@@ -214,6 +214,51 @@ func runC17(w *mon.W) {
 	}
 	w.Extra("exhaustive_parts", []string{fmt.Sprintf("De Bruijn sequence of every order 1..%d: all windows", maxOrder)})
 
+	// the same orders asked for again and again, in turn: every call returns the sequence, whatever the
+	// package remembers of earlier calls
+	nCycle := w.Pick(16, 48)
+	for k := 0; k < nCycle; k++ {
+		id := fmt.Sprintf("seq-cycle-%d", k)
+		idx++
+		if !w.Want(id, idx) {
+			continue
+		}
+		r := w.Rand(id)
+		first := map[int]string{}
+		w.Begin(id, "orders 1..10 requested in turn, 12 times over")
+		bad := false
+		for rep := 0; rep < 12 && !bad; rep++ {
+			orders := r.Perm(10)
+			for _, o := range orders {
+				n := o + 1
+				if n == 10 && rep%4 != 0 {
+					continue // the million-letter sequence only every fourth turn
+				}
+				var s string
+				if p := mon.Try(func() { s = primers.NucleobaseDeBruijnSequence(n) }); p != "" {
+					w.Violation(id, fmt.Sprintf("NucleobaseDeBruijnSequence(%d), turn %d: %s", n, rep, p), nil)
+					bad = true
+					break
+				}
+				w.Eval(true, mon.Hash64(id, fmt.Sprint(rep, n)))
+				w.Add("repeated_sequence_requests", 1)
+				if f, ok := first[n]; !ok {
+					first[n] = s
+					if int64(len(s)) != ipow(4, n)+int64(n)-1 {
+						w.Violation(id, fmt.Sprintf("NucleobaseDeBruijnSequence(%d) has length %d, want 4^n+n-1 = %d (turn %d of orders requested in turn)", n, len(s), ipow(4, n)+int64(n)-1, rep), nil)
+						bad = true
+						break
+					}
+				} else if s != f {
+					w.Violation(id, fmt.Sprintf("NucleobaseDeBruijnSequence(%d) returned %d letters on turn %d and %d letters (a different text) on its first turn", n, len(s), rep, len(f)), nil)
+					bad = true
+					break
+				}
+			}
+		}
+		w.End()
+	}
+
 	nLists := w.Pick(15000, 200000)
 	for i := 0; i < nLists; i++ {
 		id := fmt.Sprintf("bc-%d", i)
